@@ -57,4 +57,27 @@ MUTANTS = [
         (F, "def uuid_to_short_str(uuid_obj):", "def _mk_uuid(number):\n    return uuid.UUID(int=number & ((1 << 128) - 1))\n\n\ndef uuid_to_short_str(uuid_obj):")]},
     {"id": "c20-to-bytes-overflow-uncaught", "expect": "fire", "edits": [(F, "        uuid_obj = uuid.UUID(int=uuid_number)\n", "        uuid_obj = uuid.UUID(bytes=uuid_number.to_bytes(16, 'big'))\n")]},
     {"id": "c20-n-to-bytes-overflow-caught", "expect": "silent", "edits": [(F, "        uuid_obj = uuid.UUID(int=uuid_number)\n    except (ValueError, KeyError) as err:", "        uuid_obj = uuid.UUID(bytes=uuid_number.to_bytes(16, 'big'))\n    except (ValueError, KeyError, OverflowError) as err:")]},
+    # encoder as a list of characters / ljust; decoder with a temporary; predicate and exception helpers
+    {"id": "c20-n-list-join-ljust", "expect": "silent", "edits": [(F, '    out = ""\n    alpha_len = len(_ALPHABET)\n    while number:\n        number, digit = divmod(number, alpha_len)\n        out += _ALPHABET[digit]\n    remainder_len = _SHORT_GUID_LEN - len(out)\n    out += _ALPHABET[0] * remainder_len\n    return out\n', '    base = len(_ALPHABET)\n    chars = []\n    while number:\n        number, digit = divmod(number, base)\n        chars.append(_ALPHABET[digit])\n    return "".join(chars).ljust(_SHORT_GUID_LEN, _ALPHABET[0])\n')]},
+    {"id": "c20-n-list-join-plus-padding", "expect": "silent", "edits": [(F, '    out = ""\n    alpha_len = len(_ALPHABET)\n    while number:\n        number, digit = divmod(number, alpha_len)\n        out += _ALPHABET[digit]\n    remainder_len = _SHORT_GUID_LEN - len(out)\n    out += _ALPHABET[0] * remainder_len\n    return out\n', '    base = len(_ALPHABET)\n    digits = []\n    while number:\n        number, digit = divmod(number, base)\n        digits.append(_ALPHABET[digit])\n    padding = _ALPHABET[0] * (_SHORT_GUID_LEN - len(digits))\n    return "".join(digits) + padding\n')]},
+    {"id": "c20-list-join-rjust", "expect": "fire", "edits": [(F, '    out = ""\n    alpha_len = len(_ALPHABET)\n    while number:\n        number, digit = divmod(number, alpha_len)\n        out += _ALPHABET[digit]\n    remainder_len = _SHORT_GUID_LEN - len(out)\n    out += _ALPHABET[0] * remainder_len\n    return out\n', '    base = len(_ALPHABET)\n    chars = []\n    while number:\n        number, digit = divmod(number, base)\n        chars.append(_ALPHABET[digit])\n    return "".join(chars).rjust(_SHORT_GUID_LEN, _ALPHABET[0])\n')]},
+    {"id": "c20-list-join-pad-by-list-len-plus-one", "expect": "fire", "edits": [(F, '    out = ""\n    alpha_len = len(_ALPHABET)\n    while number:\n        number, digit = divmod(number, alpha_len)\n        out += _ALPHABET[digit]\n    remainder_len = _SHORT_GUID_LEN - len(out)\n    out += _ALPHABET[0] * remainder_len\n    return out\n', '    base = len(_ALPHABET)\n    digits = []\n    while number:\n        number, digit = divmod(number, base)\n        digits.append(_ALPHABET[digit])\n    padding = _ALPHABET[0] * (_SHORT_GUID_LEN - len(digits) + 1)\n    return "".join(digits) + padding\n')]},
+    {"id": "c20-n-insert-front-rjust", "expect": "fire", "edits": [(F, '    out = ""\n    alpha_len = len(_ALPHABET)\n    while number:\n        number, digit = divmod(number, alpha_len)\n        out += _ALPHABET[digit]\n    remainder_len = _SHORT_GUID_LEN - len(out)\n    out += _ALPHABET[0] * remainder_len\n    return out\n', '    base = len(_ALPHABET)\n    chars = []\n    while number:\n        number, digit = divmod(number, base)\n        chars.insert(0, _ALPHABET[digit])\n    return "".join(chars).rjust(_SHORT_GUID_LEN, _ALPHABET[0])\n')], "note": "MSD-first encoder with an LSD-first decoder: digit order disagreement"},
+    {"id": "c20-n-decoder-temp", "expect": "silent", "edits": [(F, "        number = number * alpha_len + _INDEX_ALPHABET[char]\n", "        digit = _INDEX_ALPHABET[char]\n        number = number * alpha_len + digit\n")]},
+    {"id": "c20-decoder-temp-wrong-map", "expect": "fire", "edits": [(F, "        number = number * alpha_len + _INDEX_ALPHABET[char]\n", "        digit = _INDEX_ALPHABET.get(char, 0)\n        number = number * alpha_len + digit\n")]},
+    {"id": "c20-n-predicate-and-factory", "expect": "silent", "edits": [(F, """    if not isinstance(uuid_short_str, str) or len(uuid_short_str) != _SHORT_GUID_LEN:
+        raise ValueError(f"'{uuid_to_short_str}' is not a valid uuid short string")
+""", """    if not _looks_ok(uuid_short_str):
+        raise _bad()
+"""), (F, "def uuid_to_short_str(uuid_obj):", "def _looks_ok(v):\n    return isinstance(v, str) and len(v) == _SHORT_GUID_LEN\n\n\ndef _bad():\n    return ValueError('not a short uuid')\n\n\ndef uuid_to_short_str(uuid_obj):")]},
+    {"id": "c20-predicate-without-len", "expect": "fire", "edits": [(F, """    if not isinstance(uuid_short_str, str) or len(uuid_short_str) != _SHORT_GUID_LEN:
+        raise ValueError(f"'{uuid_to_short_str}' is not a valid uuid short string")
+""", """    if not _looks_ok(uuid_short_str):
+        raise _bad()
+"""), (F, "def uuid_to_short_str(uuid_obj):", "def _looks_ok(v):\n    return isinstance(v, str) and len(v) <= _SHORT_GUID_LEN\n\n\ndef _bad():\n    return ValueError('not a short uuid')\n\n\ndef uuid_to_short_str(uuid_obj):")]},
+    {"id": "c20-factory-typeerror", "expect": "fire", "edits": [(F, """    except (ValueError, KeyError) as err:
+        raise ValueError(f"'{uuid_to_short_str}' is not a valid uuid short string") from err
+""", """    except (ValueError, KeyError) as err:
+        raise _bad() from err
+"""), (F, "def uuid_to_short_str(uuid_obj):", "def _bad():\n    return TypeError('not a short uuid')\n\n\ndef uuid_to_short_str(uuid_obj):")]},
 ]
